@@ -28,9 +28,17 @@ namespace c3 {
 // ------------------------------------------------------------------------------------------------ cells
 struct PubIn {
 	std::string name;
-	mpz_ptr target;            // verifier-side value that is overwritten for the run and restored afterwards
+	mpz_ptr target;            // verifier-side value that is overwritten for the run and restored afterwards (or NULL)
+	std::function<void()> sync;                // re-derive dependent state (exponentiation tables) after target changed
+	std::function<Z()> getv;                   // custom inputs (the verifier object is rebuilt from a mutated group text)
+	std::function<void(const Z &)> setv;
+	std::function<void()> restore;
 	Tag tag;                   // kind (for the catalogue) and coverage
 	std::vector<Z> neighbours; // "neighbour's value": another valid value of the same sort
+	PubIn() : target(NULL) {}
+	Z get() const { return target ? Z(target) : getv(); }
+	void set(const Z &w) { if (target) { mpz_set(target, w); if (sync) sync(); } else setv(w); }
+	void undo(const Z &orig) { if (target) { mpz_set(target, orig); if (sync) sync(); } else restore(); }
 };
 
 struct Cell {
@@ -157,17 +165,40 @@ inline size_t fact(size_t n) { size_t f = 1; for (size_t i = 2; i <= n; i++) f *
 inline std::vector<size_t> rot_of(size_t n, size_t r) { std::vector<size_t> p(n); for (size_t i = 0; i < n; i++) p[i] = (r + i) % n; return p; }
 inline std::string perm_str(const std::vector<size_t> &p) { std::string s; for (size_t i = 0; i < p.size(); i++) s += (char)('0' + p[i]); return s; }
 
+// the verifier instance "as if constructed with these parameters": the fixed-base tables follow g, h, p
+inline void vtmf_sync(BarnettSmartVTMF_dlog *V)
+{
+	if (!mpz_sgn(V->p)) return;
+	tmcg_mpz_fpowm_precompute(V->fpowm_table_g, V->g, V->p, mpz_sizeinbase(V->q, 2L));
+	tmcg_mpz_fpowm_precompute(V->fpowm_table_h, V->h, V->p, mpz_sizeinbase(V->q, 2L));
+}
 inline void group_pubins(const Cell &c, BarnettSmartVTMF_dlog *V, std::vector<PubIn> &out, bool with_h = true)
 {
-	PubIn a; a.name = "group.p", a.target = V->p, a.tag = c.T(K_EXACT, "group.p"); out.push_back(a);
-	PubIn b; b.name = "group.q", b.target = V->q, b.tag = c.T(K_EXACT, "group.q"); out.push_back(b);
-	PubIn g; g.name = "group.g", g.target = V->g, g.tag = c.T(K_ELEM, "group.g"); out.push_back(g);
-	if (with_h) { PubIn h; h.name = "key.h", h.target = V->h, h.tag = c.T(K_ELEM, "key.h"); out.push_back(h); }
+	std::function<void()> sy = [V]() { vtmf_sync(V); };
+	PubIn a; a.name = "group.p", a.target = V->p, a.sync = sy, a.tag = c.T(K_EXACT, "group.p"); out.push_back(a);
+	PubIn b; b.name = "group.q", b.target = V->q, b.sync = sy, b.tag = c.T(K_EXACT, "group.q"); out.push_back(b);
+	PubIn g; g.name = "group.g", g.target = V->g, g.sync = sy, g.tag = c.T(K_ELEM, "group.g"); out.push_back(g);
+	if (with_h) { PubIn h; h.name = "key.h", h.target = V->h, h.sync = sy, h.tag = c.T(K_ELEM, "key.h"); out.push_back(h); }
 }
 inline PubIn pub_elem(const Cell &c, const std::string &name, mpz_ptr t, Kind k = K_ELEM)
 {
 	PubIn a; a.name = name, a.target = t, a.tag = c.T(k, name); return a;
 }
+inline PubIn weak_pub(PubIn a, const char *w) { a.tag.weak = w; return a; }
+
+// replace the given lines of a published group text by one value (inputs that occur more than once are changed jointly)
+inline std::string replace_lines(const std::string &text, const std::vector<size_t> &idx, const Z &w)
+{
+	std::vector<std::string> l = split_lines(text);
+	for (size_t i = 0; i < idx.size(); i++) l[idx[i]] = w.str();
+	std::string r;
+	for (size_t i = 0; i < l.size(); i++) r += l[i] + "\n";
+	return r;
+}
+inline Z line_value(const std::string &text, size_t idx) { Z v; v.parse(split_lines(text)[idx]); return v; }
+inline std::vector<size_t> ix(size_t a) { std::vector<size_t> v; v.push_back(a); return v; }
+inline std::vector<size_t> ix(size_t a, size_t b) { std::vector<size_t> v; v.push_back(a), v.push_back(b); return v; }
+inline Tag weak(Tag t, const char *w) { t.weak = w; return t; }
 
 // ================================================================================================ VTMF: key share
 struct KeySt { World *W; BarnettSmartVTMF_dlog *V; JareckiLysyanskayaEDCF *eP, *eV; Z key; int mode; uint64_t seed;
@@ -219,8 +250,8 @@ inline CellP make_key(World &W, int mode /*0 nizk, 1 interactive, 2 public coin*
 	};
 	c->tags = [cp, st](const RunOut &, std::vector<Tag> &pv, std::vector<Tag> &vp) {
 		if (st->mode == 0) { pv.push_back(cp->T(K_ELEM, "h_i")), pv.push_back(cp->T(K_EXACT, "c")), pv.push_back(cp->T(K_EXPR, "r")); }
-		else if (st->mode == 1) { pv.push_back(cp->T(K_ELEM, "m_1")), pv.push_back(cp->T(K_EXPR, "m_2")); vp.push_back(cp->T(K_EXP, "c")); }
-		else { pv.push_back(cp->T(K_ELEM, "m_1")); add_flip(*cp, pv); pv.push_back(cp->T(K_EXPR, "m_2")); add_flip(*cp, vp); }
+		else if (st->mode == 1) { pv.push_back(cp->T(K_ELEM, "m_1")), pv.push_back(weak(cp->T(K_EXPR, "m_2"), "negexp")); vp.push_back(cp->T(K_EXP, "c")); }
+		else { pv.push_back(cp->T(K_ELEM, "m_1")); add_flip(*cp, pv); pv.push_back(weak(cp->T(K_EXPR, "m_2"), "negexp")); add_flip(*cp, vp); }
 		return true;
 	};
 	c->pubins = [cp, st](const RunOut &, std::vector<PubIn> &out) {
@@ -746,7 +777,8 @@ inline void add_skc_tags(const Cell &c, size_t n, int mode, std::vector<Tag> &pv
 {
 	if (mode == 0) vp.push_back(c.T(K_CHLE, "skc.x"));
 	if (mode == 1) add_flip(c, pv), add_flip(c, vp);
-	pv.push_back(c.T(K_COM, "skc.c_d")), pv.push_back(c.T(K_COM, "skc.c_Delta")), pv.push_back(c.T(K_COM, "skc.c_a"));
+	pv.push_back(weak(c.T(K_COM, "skc.c_d"), "order2-commitment")), pv.push_back(weak(c.T(K_COM, "skc.c_Delta"), "order2-commitment")),
+		pv.push_back(weak(c.T(K_COM, "skc.c_a"), "order2-commitment"));
 	if (mode == 0) vp.push_back(c.T(K_CHLE, "skc.e"));
 	if (mode == 1) add_flip(c, pv), add_flip(c, vp);
 	add_n(pv, n, c.T(K_EXPR, "skc.f"));
@@ -756,9 +788,10 @@ inline void add_skc_tags(const Cell &c, size_t n, int mode, std::vector<Tag> &pv
 }
 
 struct SKCSt { SKCWorld *S; JareckiLysyanskayaEDCF *eP, *eV; size_t n; std::vector<size_t> pi; int mode; bool opt;
-	std::vector<mpz_ptr> m, mpi, mV; Z c, r, cV;
-	SKCSt() : S(NULL), eP(NULL), eV(NULL), n(0), mode(0), opt(true) {}
-	~SKCSt() { for (size_t i = 0; i < m.size(); i++) { mpz_clear(m[i]), mpz_clear(mpi[i]), mpz_clear(mV[i]); delete [] m[i]; delete [] mpi[i]; delete [] mV[i]; } delete eP; delete eV; } };
+	std::vector<mpz_ptr> m, mpi, mV; Z c, r, cV; GrothSKC *alt; std::string gtext;
+	SKCSt() : S(NULL), eP(NULL), eV(NULL), n(0), mode(0), opt(true), alt(NULL) {}
+	GrothSKC *V() { return alt ? alt : S->V; }
+	~SKCSt() { delete alt; for (size_t i = 0; i < m.size(); i++) { mpz_clear(m[i]), mpz_clear(mpi[i]), mpz_clear(mV[i]); delete [] m[i]; delete [] mpi[i]; delete [] mV[i]; } delete eP; delete eV; } };
 
 // mode 0 interactive, 1 public coin, 2 non-interactive
 inline CellP make_skc(SKCWorld &S, size_t n, const std::vector<size_t> &pi, int mode, bool opt)
@@ -803,21 +836,31 @@ inline CellP make_skc(SKCWorld &S, size_t n, const std::vector<size_t> &pi, int 
 		return true;
 	};
 	c->verifier = [st](std::iostream &s) {
-		if (st->mode == 0) return st->S->V->Verify_interactive(st->cV, st->mV, s, s, st->opt);
-		if (st->mode == 1) return st->S->V->Verify_interactive_publiccoin(st->cV, st->mV, st->eV, s, s, st->opt);
-		return st->S->V->Verify_noninteractive(st->cV, st->mV, s, st->opt);
+		if (st->mode == 0) return st->V()->Verify_interactive(st->cV, st->mV, s, s, st->opt);
+		if (st->mode == 1) return st->V()->Verify_interactive_publiccoin(st->cV, st->mV, st->eV, s, s, st->opt);
+		return st->V()->Verify_noninteractive(st->cV, st->mV, s, st->opt);
 	};
 	c->tags = [cp, st](const RunOut &, std::vector<Tag> &pv, std::vector<Tag> &vp) { add_skc_tags(*cp, st->n, st->mode, pv, vp); return true; };
 	c->pubins = [cp, st](const RunOut &, std::vector<PubIn> &out) {
-		PedersenCommitmentScheme *com = st->S->V->com;
-		out.push_back(pub_elem(*cp, "c", st->cV, K_COM));
+		// the commitment scheme the verifier was constructed with: p, q, k, h, g_1..g_N  (rebuilt from a mutated text)
+		if (st->gtext.empty()) { std::stringstream g; st->S->V->PublishGroup(g); st->gtext = g.str(); }
+		std::shared_ptr<SKCSt> s2 = st;
+		auto rebuilt = [s2, cp](const std::string &name, const std::vector<size_t> &lines, Kind k, const char *wk) {
+			PubIn a;
+			a.name = name, a.tag = cp->T(k, name), a.tag.weak = wk;
+			a.getv = [s2, lines]() { return line_value(s2->gtext, lines[0]); };
+			a.setv = [s2, lines](const Z &w) { std::stringstream g(replace_lines(s2->gtext, lines, w)); delete s2->alt; s2->alt = new GrothSKC(s2->S->nmax, g, s2->S->le, s2->S->ps, s2->S->qs); };
+			a.restore = [s2]() { delete s2->alt; s2->alt = NULL; };
+			return a;
+		};
+		out.push_back(weak_pub(pub_elem(*cp, "c", st->cV, K_COM), "order2-input"));
 		for (size_t i = 0; i < st->n; i++)
 		{
 			PubIn a = pub_elem(*cp, "m", st->mV[i], K_EXP); a.neighbours.push_back(Z(st->m[(i + 1) % st->n])); out.push_back(a);
-			PubIn g = pub_elem(*cp, "com.g", com->g[i]); g.neighbours.push_back(Z(com->g[(i + 1) % st->n])); out.push_back(g);
+			PubIn g = rebuilt("com.g", ix(4 + i), K_ELEM, "order2-input"); g.neighbours.push_back(line_value(st->gtext, 4 + (i + 1) % st->n)); out.push_back(g);
 		}
-		out.push_back(pub_elem(*cp, "com.h", com->h));
-		PubIn a; a.name = "com.p", a.target = com->p, a.tag = cp->T(K_EXACT, "com.p"); out.push_back(a);
+		out.push_back(rebuilt("com.h", ix(3), K_ELEM, "order2-input"));
+		out.push_back(rebuilt("com.p", ix(0), K_EXACT, ""));
 		// com.q is not mutated: the SKC verifiers assert() that the challenge e is invertible modulo q, so a caller who
 		// passes a composite q makes the library abort; CheckGroup() is the documented precondition (C06's subject)
 	};
@@ -850,7 +893,9 @@ inline ShWorld &shworld(World &W, size_t nmax, unsigned le)
 	return *cache[k];
 }
 
-struct ShSt : VStackSt { ShWorld *S; int proto, mode; ShSt() : S(NULL), proto(0), mode(0) {} };
+struct ShSt : VStackSt { ShWorld *S; int proto, mode; GrothVSSHE *vsAlt; HooghSchoenmakersSkoricVillegasVRHE *vrAlt; std::string vstext, vrtext;
+	ShSt() : S(NULL), proto(0), mode(0), vsAlt(NULL), vrAlt(NULL) {}
+	~ShSt() { delete vsAlt; delete vrAlt; } };
 
 // proto 0: GrothVSSHE directly, 1: through TMCG_*StackEquality_Groth*, 2: VRHE directly, 3: through TMCG_*_Hoogh*
 // mode  0: interactive (direct only), 1: public coin, 2: non-interactive
@@ -898,8 +943,8 @@ inline CellP make_shuffle(ShWorld &S, int proto, int mode, size_t n, const std::
 		return true;
 	};
 	c->verifier = [st](std::iostream &s) {
-		GrothVSSHE *vs = st->S->vsV;
-		HooghSchoenmakersSkoricVillegasVRHE *vr = st->S->vrV;
+		GrothVSSHE *vs = st->vsAlt ? st->vsAlt : st->S->vsV;
+		HooghSchoenmakersSkoricVillegasVRHE *vr = st->vrAlt ? st->vrAlt : st->S->vrV;
 		BarnettSmartVTMF_dlog *B = st->W->B;
 		switch (st->proto * 3 + st->mode)
 		{
@@ -921,8 +966,8 @@ inline CellP make_shuffle(ShWorld &S, int proto, int mode, size_t n, const std::
 		int mode = st->mode;
 		if (st->proto < 2)
 		{
-			pv.push_back(cp->T(K_COM, "c")), pv.push_back(cp->T(K_COM, "c_d"));
-			pv.push_back(cp->T(K_ELEM, "E_d.1")), pv.push_back(cp->T(K_ELEM, "E_d.2"));
+			pv.push_back(weak(cp->T(K_COM, "c"), "order2-commitment")), pv.push_back(weak(cp->T(K_COM, "c_d"), "order2-commitment"));
+			pv.push_back(weak(cp->T(K_ELEM, "E_d.1"), "norange")), pv.push_back(weak(cp->T(K_ELEM, "E_d.2"), "norange"));
 			if (mode == 0) add_n(vp, n, cp->T(K_CHLE, "t"));
 			if (mode == 1) for (size_t i = 0; i < n; i++) add_flip(*cp, pv), add_flip(*cp, vp);
 			add_n(pv, n, cp->T(K_EXPR, "f"));
@@ -963,22 +1008,44 @@ inline CellP make_shuffle(ShWorld &S, int proto, int mode, size_t n, const std::
 			else { t[0] = st->eV_[i].first, t[1] = st->eV_[i].second, t[2] = st->EV_[i].first, t[3] = st->EV_[i].second; }
 			mpz_srcptr nb[4] = {st->s[o].c_1, st->s[o].c_2, st->s2[o].c_1, st->s2[o].c_2};
 			const char *nm[4] = {"s.c_1", "s.c_2", "s2.c_1", "s2.c_2"};
-			for (int k = 0; k < 4; k++) { PubIn a = pub_elem(*cp, nm[k], t[k]); a.neighbours.push_back(Z(nb[k])); out.push_back(a); }
+			// the class-level verifiers do not test the caller's cards for membership; the wrappers test the shuffled stack only
+			for (int k = 0; k < 4; k++) { PubIn a = pub_elem(*cp, nm[k], t[k]); a.neighbours.push_back(Z(nb[k])); if (!wrapper || k < 2) a.tag.weak = "order2-input"; out.push_back(a); }
 		}
+		std::shared_ptr<ShSt> s2 = st;
 		if (st->proto < 2)
 		{
-			GrothVSSHE *vs = st->S->vsV;
-			out.push_back(pub_elem(*cp, "vsshe.g", vs->g)), out.push_back(pub_elem(*cp, "vsshe.h", vs->h));
-			for (size_t i = 0; i < st->n; i++) { PubIn g = pub_elem(*cp, "com.g", vs->com->g[i]); g.neighbours.push_back(Z(vs->com->g[(i + 1) % st->n])); out.push_back(g); }
-			PubIn a; a.name = "vsshe.p", a.target = vs->p, a.tag = cp->T(K_EXACT, "vsshe.p"); out.push_back(a);
-			PubIn b; b.name = "vsshe.q", b.target = vs->q, b.tag = cp->T(K_EXACT, "vsshe.q"); out.push_back(b);
+			// GrothVSSHE group text: p, q, g, h, then the commitment scheme p, q, k, h, g_1..g_N
+			if (st->vstext.empty()) { std::stringstream g; st->S->vsV->PublishGroup(g); st->vstext = g.str(); }
+			auto rebuilt = [s2, cp](const std::string &name, const std::vector<size_t> &lines, Kind k, const char *wk) {
+				PubIn a;
+				a.name = name, a.tag = cp->T(k, name), a.tag.weak = wk;
+				a.getv = [s2, lines]() { return line_value(s2->vstext, lines[0]); };
+				a.setv = [s2, lines](const Z &w) { std::stringstream g(replace_lines(s2->vstext, lines, w)); delete s2->vsAlt; s2->vsAlt = new GrothVSSHE(s2->S->nmax, g, s2->S->le, s2->W->psize, s2->W->qsize); };
+				a.restore = [s2]() { delete s2->vsAlt; s2->vsAlt = NULL; };
+				return a;
+			};
+			out.push_back(rebuilt("vsshe.p", ix(0, 4), K_EXACT, "")), out.push_back(rebuilt("vsshe.q", ix(1, 5), K_EXACT, ""));
+			out.push_back(rebuilt("vsshe.g", ix(2), K_ELEM, "order2-input")), out.push_back(rebuilt("vsshe.h", ix(3, 7), K_ELEM, "order2-input"));
+			for (size_t i = 0; i < st->n; i++)
+			{
+				PubIn g = rebuilt("com.g", ix(8 + i), K_ELEM, "order2-input");
+				g.neighbours.push_back(line_value(st->vstext, 8 + (i + 1) % st->n));
+				out.push_back(g);
+			}
 		}
 		else
 		{
-			HooghSchoenmakersSkoricVillegasVRHE *vr = st->S->vrV;
-			out.push_back(pub_elem(*cp, "vrhe.g", vr->g)), out.push_back(pub_elem(*cp, "vrhe.h", vr->h));
-			PubIn a; a.name = "vrhe.p", a.target = vr->p, a.tag = cp->T(K_EXACT, "vrhe.p"); out.push_back(a);
-			PubIn b; b.name = "vrhe.q", b.target = vr->q, b.tag = cp->T(K_EXACT, "vrhe.q"); out.push_back(b);
+			if (st->vrtext.empty()) { std::stringstream g; st->S->vrV->PublishGroup(g); st->vrtext = g.str(); }
+			auto rebuilt = [s2, cp](const std::string &name, const std::vector<size_t> &lines, Kind k, const char *wk) {
+				PubIn a;
+				a.name = name, a.tag = cp->T(k, name), a.tag.weak = wk;
+				a.getv = [s2, lines]() { return line_value(s2->vrtext, lines[0]); };
+				a.setv = [s2, lines](const Z &w) { std::stringstream g(replace_lines(s2->vrtext, lines, w)); delete s2->vrAlt; s2->vrAlt = new HooghSchoenmakersSkoricVillegasVRHE(g, s2->W->psize, s2->W->qsize); };
+				a.restore = [s2]() { delete s2->vrAlt; s2->vrAlt = NULL; };
+				return a;
+			};
+			out.push_back(rebuilt("vrhe.p", ix(0), K_EXACT, "")), out.push_back(rebuilt("vrhe.q", ix(1), K_EXACT, ""));
+			out.push_back(rebuilt("vrhe.g", ix(2), K_ELEM, "order2-input")), out.push_back(rebuilt("vrhe.h", ix(3), K_ELEM, "order2-input"));
 		}
 		if (wrapper) group_pubins(*cp, st->W->B, out);
 	};
@@ -987,16 +1054,16 @@ inline CellP make_shuffle(ShWorld &S, int proto, int mode, size_t n, const std::
 
 // ================================================================================================ commitments
 struct ComSt { int mode; size_t n; PedersenCommitmentScheme *P, *V; PedersenTrapdoorCommitmentScheme *tP, *tV;
-	std::vector<mpz_ptr> m, mV; Z c, r, tm;
-	ComSt() : mode(0), n(0), P(NULL), V(NULL), tP(NULL), tV(NULL) {}
-	~ComSt() { for (size_t i = 0; i < m.size(); i++) { mpz_clear(m[i]), mpz_clear(mV[i]); delete [] m[i]; delete [] mV[i]; } delete P; delete V; delete tP; delete tV; } };
+	std::vector<mpz_ptr> m, mV; Z c, r, tm; PedersenCommitmentScheme *alt; PedersenTrapdoorCommitmentScheme *talt; std::string gtext; size_t nmax; unsigned ps, qs;
+	ComSt() : mode(0), n(0), P(NULL), V(NULL), tP(NULL), tV(NULL), alt(NULL), talt(NULL), nmax(0), ps(0), qs(0) {}
+	~ComSt() { delete alt; delete talt; for (size_t i = 0; i < m.size(); i++) { mpz_clear(m[i]), mpz_clear(mV[i]); delete [] m[i]; delete [] mV[i]; } delete P; delete V; delete tP; delete tV; } };
 
 // The "transcript" of a commitment opening is (c, r, m_1..m_n): one line each; the verifier is Verify(c, r, m).
 inline CellP make_commit(int mode /*0 Pedersen, 1 trapdoor*/, size_t nmax, size_t n, unsigned ps, unsigned qs)
 {
 	CellP c(new Cell);
 	std::shared_ptr<ComSt> st(new ComSt);
-	st->mode = mode, st->n = n;
+	st->mode = mode, st->n = n, st->nmax = nmax, st->ps = ps, st->qs = qs;
 	with_coins(mcenv::env_seed(), 14000 + nmax * 7 + mode, [&]() {
 		std::stringstream g;
 		if (mode == 0) { st->P = new PedersenCommitmentScheme(nmax, ps, qs); st->P->PublishGroup(g); st->V = new PedersenCommitmentScheme(nmax, g, ps, qs);
@@ -1042,11 +1109,11 @@ inline CellP make_commit(int mode /*0 Pedersen, 1 trapdoor*/, size_t nmax, size_
 		{
 			for (size_t i = 0; i < st->n; i++) s >> st->mV[i];
 			if (!s.good()) return false;
-			return st->V->Verify(cc, rr, st->mV);
+			return (st->alt ? st->alt : st->V)->Verify(cc, rr, st->mV);
 		}
 		s >> mm;
 		if (!s.good()) return false;
-		return st->tV->Verify(cc, rr, mm);
+		return (st->talt ? st->talt : st->tV)->Verify(cc, rr, mm);
 	};
 	c->tags = [cp, st](const RunOut &, std::vector<Tag> &pv, std::vector<Tag> &) {
 		pv.push_back(cp->T(K_ELEM, "c")), pv.push_back(cp->T(K_EXPR, "r"));
@@ -1055,18 +1122,38 @@ inline CellP make_commit(int mode /*0 Pedersen, 1 trapdoor*/, size_t nmax, size_
 		return true;
 	};
 	c->pubins = [cp, st](const RunOut &, std::vector<PubIn> &out) {
+		// Pedersen: p, q, k, h, g_1..g_N ; trapdoor: p, q, k, g, h   (the verifier object is rebuilt from a mutated text)
+		if (st->gtext.empty()) { std::stringstream g; if (st->mode == 0) st->V->PublishGroup(g); else st->tV->PublishGroup(g); st->gtext = g.str(); }
+		std::shared_ptr<ComSt> s2 = st;
+		auto rebuilt = [s2, cp](const std::string &name, size_t line, Kind k, const char *wk) {
+			PubIn a;
+			a.name = name, a.tag = cp->T(k, name), a.tag.weak = wk;
+			a.getv = [s2, line]() { return line_value(s2->gtext, line); };
+			a.setv = [s2, line](const Z &w) {
+				std::stringstream g(replace_lines(s2->gtext, ix(line), w));
+				delete s2->alt; delete s2->talt; s2->alt = NULL; s2->talt = NULL;
+				if (s2->mode == 0) s2->alt = new PedersenCommitmentScheme(s2->nmax, g, s2->ps, s2->qs);
+				else s2->talt = new PedersenTrapdoorCommitmentScheme(g, s2->ps, s2->qs);
+			};
+			a.restore = [s2]() { delete s2->alt; delete s2->talt; s2->alt = NULL; s2->talt = NULL; };
+			return a;
+		};
 		if (st->mode == 0)
 		{
-			for (size_t i = 0; i < st->n; i++) { PubIn g = pub_elem(*cp, "com.g", st->V->g[i]); out.push_back(g); }
-			out.push_back(pub_elem(*cp, "com.h", st->V->h));
+			for (size_t i = 0; i < st->n; i++) out.push_back(rebuilt("com.g", 4 + i, K_ELEM, "order2-input"));
+			out.push_back(rebuilt("com.h", 3, K_ELEM, "order2-input")), out.push_back(rebuilt("com.p", 0, K_EXACT, ""));
 		}
-		else { out.push_back(pub_elem(*cp, "com.g", st->tV->g)), out.push_back(pub_elem(*cp, "com.h", st->tV->h)); }
+		else
+		{
+			out.push_back(rebuilt("com.g", 3, K_ELEM, "order2-input")), out.push_back(rebuilt("com.h", 4, K_ELEM, "order2-input"));
+			out.push_back(rebuilt("com.p", 0, K_EXACT, ""));
+		}
 	};
 	return c;
 }
 
 // ================================================================================================ two-party coin flip
-struct FlipSt { World *W; JareckiLysyanskayaEDCF *e0, *e1; Z a0, a1; FlipSt() : W(NULL), e0(NULL), e1(NULL) {} ~FlipSt() { delete e0; delete e1; } };
+struct FlipSt { World *W; JareckiLysyanskayaEDCF *e0, *e1, *alt; Z a0, a1; Z crs[4]; FlipSt() : W(NULL), e0(NULL), e1(NULL), alt(NULL) {} ~FlipSt() { delete e0; delete e1; delete alt; } };
 
 // side A = party 0, side B = party 1.  "accept" of the cell = party 1 returned true; party 0's verdict is in p_ok.
 inline CellP make_flip(World &W)
@@ -1084,11 +1171,24 @@ inline CellP make_flip(World &W)
 	Cell *cp = c.get();
 	c->prepare = [](uint64_t) { };
 	c->prover = [st](std::iostream &s) { std::stringstream err; mpz_set_ui(st->a0, 0); return st->e0->Flip_twoparty(0, st->a0, s, s, err); };
-	c->verifier = [st](std::iostream &s) { std::stringstream err; mpz_set_ui(st->a1, 0); return st->e1->Flip_twoparty(1, st->a1, s, s, err); };
+	c->verifier = [st](std::iostream &s) { std::stringstream err; mpz_set_ui(st->a1, 0); return (st->alt ? st->alt : st->e1)->Flip_twoparty(1, st->a1, s, s, err); };
 	c->post = [st](std::string &why) { if (mpz_cmp(st->a0, st->a1)) { why = "parties disagree on the coin"; return false; } return true; };
 	c->tags = [cp](const RunOut &, std::vector<Tag> &pv, std::vector<Tag> &vp) { add_flip(*cp, pv), add_flip(*cp, vp); return true; };
 	c->pubins = [cp, st](const RunOut &, std::vector<PubIn> &out) {
-		out.push_back(pub_elem(*cp, "crs.g", st->e1->g)), out.push_back(pub_elem(*cp, "crs.h", st->e1->h));
+		// party 1 constructed with another common reference string (p, q, g, h)
+		st->crs[0] = Z(st->e1->p), st->crs[1] = Z(st->e1->q), st->crs[2] = Z(st->e1->g), st->crs[3] = Z(st->e1->h);
+		std::shared_ptr<FlipSt> s2 = st;
+		const char *nm[4] = {"crs.p", "crs.q", "crs.g", "crs.h"};
+		for (int i = 0; i < 4; i++)
+		{
+			PubIn a;
+			a.name = nm[i], a.tag = cp->T(i < 2 ? K_EXACT : K_ELEM, nm[i]);
+			if (i >= 2) a.tag.weak = "order2-input";
+			a.getv = [s2, i]() { return s2->crs[i]; };
+			a.setv = [s2, i](const Z &w) { Z v[4]; for (int k = 0; k < 4; k++) v[k] = s2->crs[k]; v[i] = w; delete s2->alt; s2->alt = new JareckiLysyanskayaEDCF(2, 0, v[0], v[1], v[2], v[3]); };
+			a.restore = [s2]() { delete s2->alt; s2->alt = NULL; };
+			out.push_back(a);
+		}
 	};
 	return c;
 }
